@@ -53,6 +53,7 @@ def universes(tier, seed):
         out.append((f"NFVS3_multi[{seed % 8}/8]", [("idx", 3, i) for i in U.shard(U.catalogue("nfvs_multi"), seed, 8)]))
         out.append((f"NFVS3[{seed % 8192}/8192]", [("idx", 3, i) for i in U.shard(U.catalogue("nfvs"), seed, 8192)]))
         out.append((f"MAA3[{seed % 2048}/2048]", [("idx", 3, i) for i in U.shard(U.catalogue("maa"), seed, 2048)]))
+        out.append((f"MAA3[{seed % 8192}/8192]+input", [("u", ("idx", 3, i), ("idx", 1, 2)) for i in U.shard(U.catalogue("maa"), seed, 8192)]))
     else:
         out.append(("U2", [("idx", 2, i) for i in range(256)]))
         out.append((f"F3c[{seed % 4}/4]", [("idx", 3, i) for i in U.shard(U.F3_indices(True), seed, 4)]))
@@ -89,9 +90,14 @@ def prep(net, state, cfg):
     sd = new_sd(net, cfg)
     if state == "expanded":
         sd.expand_bfs()
-    elif state == "skipped":
+    elif state in ("skipped", "skipped_q"):
         sd.node_successors(0, compute=True)
         sd.skip_remaining()
+        if state == "skipped_q":  # skip-node pruning reads other nodes' already-known empty results
+            try:
+                sd.node_attractor_candidates(0, compute=True)
+            except RuntimeError:
+                pass
     return sd
 
 
@@ -136,7 +142,7 @@ def run_unit(unit):
         nfull = len(net.sd[0])
         try:
             with case_timeout(1200):
-                for state in ("stub", "expanded", "skipped"):
+                for state in ("stub", "expanded", "skipped", "skipped_q"):
                     nodes = [0] if state == "stub" else list(range(nfull + len(net.min_traps)))
                     probe = prep(net, state, {})
                     nodes = [i for i in nodes if i < len(probe)]
